@@ -25,13 +25,13 @@ def h_hist(ex, ops, seed_key=True, client='facade', timeout=1, app_delay=None):
     if app_delay is not None:
         rig.app_delay = Fraction(app_delay)
     tmo = Fraction(timeout)
-    ptr = ex.fresh_int('ptr', 0, (1 << 32) - 1)
     nbytes = 4
     hist = []
     for i, op in enumerate(ops):
         kind, rw = op[0], op[1]
         arg = op[2] if len(op) > 2 else None
         info = {'op': i, 'kind': kind, 'rw': rw, 'arg': arg, 'history': hist[:]}
+        ptr = ex.fresh_int('ptr%d' % i, 0, (1 << 32) - 1)       # every operation has its own pointer
         n_proc, n_notify, n_ret = len(rig.proceed_calls), rig.notify_calls, len(rig.respond_returns)
         n_seeds = len(rig.seeds)
         base = len(w.log)
